@@ -64,7 +64,8 @@ impl Reverb {
 
 		let adjust_buffer_size = |buffer_size: usize| -> usize {
 			let sample_rate_factor = (sample_rate as f64) / (REFERENCE_SAMPLE_RATE as f64);
-			((buffer_size as f64) * sample_rate_factor) as usize
+			// (at least one sample, so that very low sample rates do not produce empty buffers)
+			(((buffer_size as f64) * sample_rate_factor) as usize).max(1)
 		};
 
 		self.state = ReverbState::Initialized {
